@@ -83,7 +83,7 @@ func (e *c19Env) inject(r *core.Rand, natural map[string]int16) {
 		if !s.known(x.Leader) {
 			return
 		}
-		f := &c19Fault{Kind: kind, Topic: x.Topic, Partition: x.ID, Code: code}
+		f := &c19Fault{Kind: kind, Topic: x.Topic, Partition: x.ID, Code: code, OnlyEarliest: r.Chance(1, 3)}
 		e.setFault(f)
 		cli := e.newClient(boot)
 		defer cli.close()
@@ -92,10 +92,18 @@ func (e *c19Env) inject(r *core.Rand, natural map[string]int16) {
 		for _, q := range reqs {
 			if q.Part == x {
 				found = true
+				if f.OnlyEarliest {
+					// several lookups of the partition in one request, only one of them fails: the
+					// partition must still carry the error
+					q.First, q.Last = true, true
+				}
 			}
 		}
 		if !found {
-			reqs = append(reqs, &c19LOReq{Part: x, Topic: x.Topic, ID: x.ID, First: r.Bool(), Last: true, Times: c19Times(r, x, r.Intn(2))})
+			reqs = append(reqs, &c19LOReq{Part: x, Topic: x.Topic, ID: x.ID, First: f.OnlyEarliest || r.Bool(), Last: true, Times: c19Times(r, x, r.Intn(2))})
+		}
+		if f.OnlyEarliest {
+			e.k.Count("injected_single_lookup_errors", 1)
 		}
 		failing[c19Key(x.Topic, x.ID)] = code
 		e.k.Count("injected_partition_errors", 1)
